@@ -226,6 +226,13 @@ func (c *Ctx) Inconclusive(format string, args ...interface{}) {
 	panic(caseEnd{})
 }
 
+// IsCaseEnd reports whether a recovered panic value is the harness's own
+// "this case is over" signal (used by fuzz targets, which run bodies directly).
+func IsCaseEnd(r interface{}) bool {
+	_, ok := r.(caseEnd)
+	return ok
+}
+
 // End ends the case early (nothing more to do).
 func (c *Ctx) End() { panic(caseEnd{}) }
 
